@@ -87,13 +87,16 @@ const PRELUDE: &str = r#"
     (set! f (lambda () (unbox payload) f))
     f))
 (define (g-t-closure n) (let lp ((i 0)) (when (< i n) (make-t-closure) (lp (+ i 1)))))
+(define (g-t-thread n k) (thread-join! (spawn-native-thread (lambda () (g-t-ring n k) (g-t-acyclic n) (g-t-closure n) 0))))
+(define (g-t-thread-result n k) (let lp ((i 0)) (when (< i n) (thread-join! (spawn-native-thread (lambda () (make-t-ring k)))) (lp (+ i 1)))))
+(define (g-t-channel n) (let ((ch (channels/new))) (let lp ((i 0)) (when (< i n) (channel/send (channels-sender ch) (box (make-tracker))) (lp (+ i 1))))))
 (define (keep-add! x) (set! keep (cons (box x) keep)))
 (define (keep-drop!) (when (not (null? keep)) (set! keep (cdr keep))))
 (define (keep-sum) (apply + (map unbox keep)))
 "#;
 
 const KINDS: &[&str] = &[
-    "acyclic", "self", "ring", "mixed", "closure", "continuation", "handler", "shadowed", "t-acyclic", "t-ring", "t-closure", "t-rooted", "t-pair",
+    "acyclic", "self", "ring", "mixed", "closure", "continuation", "handler", "shadowed", "t-acyclic", "t-ring", "t-closure", "t-rooted", "t-pair", "t-thread", "t-thread-result", "t-channel",
 ];
 
 fn gen_workload(rng: &mut Rng, thorough: bool) -> Value {
@@ -104,6 +107,12 @@ fn gen_workload(rng: &mut Rng, thorough: bool) -> Value {
     let mut kinds: Vec<&str> = KINDS.to_vec();
     rng.shuffle(&mut kinds);
     kinds.truncate(rng.range(1, 4) as usize);
+    // garbage made by (or handed back from) threads that have finished has a
+    // recorded defect of its own (known_findings.json): such runs use that one
+    // kind only, so that it neither hides nor gets mixed into other results
+    if let Some(tk) = kinds.iter().copied().find(|k| *k == "t-thread" || *k == "t-thread-result") {
+        kinds = vec![tk];
+    }
     let only = std::env::var("VERIF_C19_KINDS").unwrap_or_default();
     if !only.is_empty() {
         kinds = KINDS.iter().copied().filter(|k| only.split(',').any(|o| o == *k)).collect();
@@ -148,6 +157,9 @@ fn render(op: &Value, uid: &mut u64) -> String {
         "t-acyclic" => format!("(g-t-acyclic {})", n.min(300)),
         "t-ring" => format!("(g-t-ring {} {})", n.min(200), r),
         "t-closure" => format!("(g-t-closure {})", n.min(300)),
+        "t-thread" => format!("(g-t-thread {} {})", n.min(30), r),
+        "t-thread-result" => format!("(g-t-thread-result {} {})", n.min(3), r),
+        "t-channel" => format!("(g-t-channel {})", n.min(300)),
         "t-pair" => {
             // a shadowed global that is referenced only by the code of another
             // shadowed global; each pair is redefined in its own evaluation
@@ -437,7 +449,7 @@ impl Scenario for C19 {
     }
     fn assumptions(&self) -> Vec<String> {
         vec![
-            "single script thread here; garbage of finished threads is exercised in the threaded scenarios".into(),
+            "one script thread at a time: garbage kinds t-thread / t-thread-result start a thread and join it before going on".into(),
             "the count is taken after two consecutive full collections at a quiescent point (empty stacks)".into(),
         ]
     }
